@@ -71,8 +71,18 @@ theorem C28_history (notes : List Note) (e : Entry) (h : Spec.validHistory e.cod
     rw [ih ⟨Spec.apply e.code n.changes, n.version⟩ hrest]
     simp [Spec.history, lastVersion]
 
-/-- `didOpen` on an unknown document stores the text and version sent by the client. -/
-theorem C28_open (text : Doc) (v : Int) : update none text (some v) = ⟨text, v⟩ := rfl
+/-- `didOpen` is authoritative: whatever entry the server holds for the document (none, one loaded from disk, one
+    left from an earlier open with a higher version), afterwards it holds the client's text and version. -/
+theorem C28_open (prior : Option Entry) (text : Doc) (v : Int) : update prior text (some v) = ⟨text, v⟩ := by
+  cases prior <;> rfl
+
+/-- **Session corollary**: `didOpen` followed by any LSP-conformant history of `didChange` notifications leaves the
+    server with the client's copy, whether or not the server had loaded the file from disk before. -/
+theorem C28_session (disk : Option Doc) (text : Doc) (v : Int) (notes : List Note)
+    (h : Spec.validHistory text v notes) :
+    runNotes (openDoc disk text v) notes = .ok ⟨Spec.history text notes, lastVersion v notes⟩ := by
+  have : openDoc disk text v = ⟨text, v⟩ := by cases disk <;> rfl
+  rw [this]; exact C28_history notes ⟨text, v⟩ h
 
 /-- The only way the transcribed loop can panic is a range whose start lies after its end (not LSP-conformant). -/
 theorem C28_crash_only_reversed (d : Doc) (chs : List Change) (m : String)
@@ -165,6 +175,14 @@ theorem C28_legacy_witness_empty_changes :
     ∧ legacyDidChange e ⟨1, []⟩ = .crash "index"
     ∧ runNotes e [⟨1, []⟩] = .ok ⟨e.code, 1⟩ :=
   ⟨(validHistory_iff _ _ _).2 (by decide), by decide, by decide⟩
+
+/-- the package entry file is loaded from disk at start-up with version 1; a client that then opens it with its own
+    (unsaved) text and first version 1 was ignored, so every later edit was applied to the wrong text -/
+theorem C28_legacy_witness_open_ignored :
+    let disk := "x = 1\n".toList
+    let text := "y = 2\n".toList
+    legacyOpenDoc (some disk) text 1 = ⟨disk, 1⟩
+    ∧ openDoc (some disk) text 1 = ⟨text, 1⟩ := by decide
 
 /-! ### Non-vacuity -/
 
